@@ -225,8 +225,10 @@ def install(path):
                         if m == 0:
                             ev["zero"] = True
                             ev["sign"] = (r == 0)
+                        elif r == 0 or r != r or abs(r) == float("inf"):
+                            pass        # the result under- or overflowed (or the source was not finite): rounding, not judged
                         else:
-                            ev["sign"] = (r > 0) == (m > 0) and r != 0
+                            ev["sign"] = (r > 0) == (m > 0)
                             lm, lr = _ln(abs(m)), _ln(abs(r))
                             if lm is not None and lr is not None:
                                 ev["obs"] = _lat(lr - lm)
